@@ -404,12 +404,19 @@ Definition c03_src_file_expected (L : lang) (f : file) : list c03_sig :=
 Definition good_C03_src_file (L : lang) (f : file) (observed : list c03_sig) : bool :=
   good_C03_sigs observed (c03_src_file_expected L f).
 
-(* finding classes, decided on the source: an annotated const that the parser can accept (its first
-   literal is an integer: Proofs.FrontItems.const_needs_int_literal) in a file generated for Scala;
+(* finding classes, decided on the source: an annotated const that the parser can accept (its
+   initialiser is an integer literal, possibly parenthesised / negated:
+   Proofs.FrontItems.const_needs_int_literal) in a file generated for Scala;
    a data-carrying enum two of whose wire names share a Types member, for Python *)
+Fixpoint c03_const_is_int (e : cexpr) : bool :=
+  match e with
+  | CELit (CInt (Some _)) => true
+  | CEParen x | CENeg x => c03_const_is_int x
+  | _ => false
+  end.
 Definition c03_const_candidate (x : item) : bool :=
   match x with
-  | IConst _ _ _ e => match ce_first_lit e with Some (CInt (Some _)) => true | _ => false end
+  | IConst _ _ _ e => c03_const_is_int e
   | _ => false
   end.
 Definition c03_src_py_collision (x : item) : bool :=
